@@ -1372,7 +1372,8 @@ theorem c07_shape_Overlay_handleSendTree :
     Shapes.overlay_Overlay_handleSendTree =
    ["if:((rt.TreeMarshal==nil)||rt.TreeMarshal.TreeID.IsNil())", "return:",
      "if:(rt.Roster==nil)", "return:", "if:!o.treeStorage.IsRequested(rt.TreeMarshal.TreeID)",
-     "return:", "TreeMarshal.MakeTree", "if:(err!=nil)", "return:", "o.RegisterTree"] := rfl
+     "return:", "TreeMarshal.MakeTree", "if:(err!=nil)", "return:", "treeStorage.setIfMissing",
+     "if:!stored", "return:", "o.checkPendingMessages"] := rfl
 
 theorem c07_shape_Overlay_handleSendTreeMarshal :
     Shapes.overlay_Overlay_handleSendTreeMarshal =
@@ -1398,8 +1399,8 @@ theorem c07_shape_Overlay_handleSendRoster :
 theorem c07_shape_Overlay_checkPendingTreeMarshal :
     Shapes.overlay_Overlay_checkPendingTreeMarshal =
    ["pendingTreeLock.Lock", "if:!ok", "pendingTreeLock.Unlock", "return:",
-     "if:(o.treeStorage.Get(tm.TreeID)!=nil)", "tm.MakeTree", "if:(err!=nil)", "o.RegisterTree",
-     "pendingTreeLock.Unlock"] := rfl
+     "if:(o.treeStorage.Get(tm.TreeID)!=nil)", "tm.MakeTree", "if:(err!=nil)",
+     "treeStorage.setIfMissing", "if:stored", "o.checkPendingMessages", "pendingTreeLock.Unlock"] := rfl
 
 theorem c07_shape_Overlay_nodeDelete :
     Shapes.overlay_Overlay_nodeDelete =
@@ -1742,6 +1743,7 @@ def callees : List (String × List String) :=
    ("treeStorage.GetRoster", treestorage_treeStorage_GetRoster), ("treeStorage.IsRequested", treestorage_treeStorage_IsRequested),
    ("treeStorage.IsRegistered", treestorage_treeStorage_IsRegistered), ("treeStorage.Register", treestorage_treeStorage_Register),
    ("treeStorage.Unregister", treestorage_treeStorage_Unregister),
+   ("treeStorage.setIfMissing", treestorage_treeStorage_setIfMissing),
    ("tni.closeDispatch", treenode_TreeNodeInstance_closeDispatch), ("pi.ProcessProtocolMsg", treenode_TreeNodeInstance_ProcessProtocolMsg)]
 
 /-- tokens that open a block closed by `"}"` (besides `go{`) in the functions of the table -/
@@ -1798,8 +1800,8 @@ def edges : List (Lock × Lock) := (entries.flatMap (walk 5 [])).eraseDups
 instance — following calls into the overlay, the tree store and the instance — these are ALL the pairs (lock held, lock
 taken).  They are the nestings `Model/C07Locks.lean` transcribes by hand. -/
 theorem c07_lock_graph_of_source :
-    edges = [(.transmitMux, .instances), (.transmitMux, .store), (.transmitMux, .pendingMsg), (.transmitMux, .pendingCfg),
-             (.transmitMux, .queue), (.instances, .store), (.pendingTree, .store), (.instances, .queue)] := by
+    edges = [(.transmitMux, .instances), (.instances, .store), (.transmitMux, .store), (.instances, .queue),
+             (.transmitMux, .queue), (.transmitMux, .pendingMsg), (.transmitMux, .pendingCfg), (.pendingTree, .store)] := by
   decide
 
 /-- **the order is a strict one**: every acquisition in the source goes up in `rank` — so no cycle of handlers waiting for
